@@ -71,7 +71,7 @@ def parseEmdpathRead (s : String) : Option (String × List String) :=
   | [] => none
   | r :: rest =>
     -- treepath = '/'.join(rest); group_names = treepath.split('/'); [''] means the root itself
-    some (r, rest)
+    some (r, if rest == [""] then [] else rest)
 
 /-- walk `group_names` from the root group: every name must be a link (`assert name in keys`) -/
 def descend : Obj → List String → R Obj
@@ -112,9 +112,12 @@ def readEMDAt (ct : ClassTable) (dt : List String) (f : Obj) (rootname : String)
     match opt with
     | .no => do
       let i ← readSingleNode ct dt nm nodegroup
+      -- `root.force_add_to_tree(node)` only accepts Node instances (a Metadata group is not one)
+      if i.gtype == "metadata" then throw (.error "not a Node")
       pure (.node (.mk rootInfo [.mk i []]) [nm])
     | .yes => do
       let t ← readNodeFull ct dt nm nodegroup
+      if t.info.gtype == "metadata" then throw (.error "not a Node")
       pure (.node (.mk rootInfo [t]) [nm])
     | .below => do
       let ks ← populateKids ct dt nodegroup.kids
